@@ -5,7 +5,8 @@ CONSTANTS
   MaxDevs = 2
   MaxSteps = 11
   UseRPs = {"cw", "cj", "cp"}
-  Ops = {"Start", "Authorize", "Login", "OPCallback", "RPCallback", "Userinfo", "Introspect", "Refresh", "Revoke", "Expire", "EndSession", "DeviceStart", "DeviceApprove", "DevicePoll"}
+  Modes = {"query", "form_post"}
+  Ops = {"Start", "Authorize", "Login", "OPCallback", "RPCallback", "Userinfo", "Introspect", "Refresh", "Revoke", "Expire", "EndSession", "DeviceStart", "DeviceApprove", "DevicePoll", "TokenExchange"}
 INVARIANT NoViolation
 VIEW View
 CHECK_DEADLOCK FALSE
